@@ -65,6 +65,61 @@ CLAIMS = {
          "count of every operation after the last foreign step is validated (<= 6 + spurious) and panic/deadlock "
          "events reject the trace",
          "7.C08", "freeze-mode TLA+ model + exhaustive schedules of real code + TLC trace validation"),
+ "C09": ("model_checking",
+         "every preemption-bounded schedule of deliveries (on other threads and nested on the consumer's thread, incl. "
+         "between its drain and its scan) against wait / forever / pending / poll_signal (blocking and non-blocking "
+         "callback) and add_signal on the real Signals / SignalsInfo<WithRawSiginfo> / SignalIterator with a real "
+         "UnixStream pair; the scheduler knows when the consumer is blocked in read() (poll(2)); TLC validates against "
+         "TraceIteratorAbs: a consumer blocked, or parked as pending at the end, with a set slot of a watched signal "
+         "and no byte outstanding violates V_C09",
+         "7.C09", "exhaustive schedule enumeration of real code + TLC trace validation against property-level TLA+ monitor"),
+ "C10": ("model_checking",
+         "same runs; every yield is validated: watched signal, yields <= deliveries begun at every instant, and for "
+         "the raw-siginfo exfiltrator each record is the faithful copy of exactly one simulated delivery (id in "
+         "si_pid/si_uid), never twice, and never before a record of a delivery that had returned before it began; "
+         "bursts longer than the 5-slot buffer included",
+         "7.C10", "exhaustive schedule enumeration of real code + TLC trace validation"),
+ "C11": ("model_checking",
+         "close() from one or two handles at every scheduling point of poll_signal / wait / forever, with concurrent "
+         "deliveries; TLC validates: closed flag sticky on every load, PollResult::Pending only if the callback was "
+         "consulted in that call and said no, nobody stays blocked after close (scheduler deadlock report)",
+         "7.C11", "exhaustive schedule enumeration of real code + TLC trace validation"),
+ "C12": ("model_checking",
+         "forked probes run add_signal / raise / clone+drop handle / drop instance histories (numbers from every class: "
+         "watched, valid, forbidden, OS-rejected, negative, >= 128; both exfiltrators) with an independent witness "
+         "action, a leak sweep of the registry and the wait status; TLC validates each record against SignalsOps.tla "
+         "(rejected add = no-op, later adds normal, never abort, drop unregisters exactly its own); scheduler scenarios "
+         "with add_signal racing deliveries are validated against TraceIteratorAbs (mutex never poisoned)",
+         "7.C12", "history probes of real code + TLC trace validation against sequential TLA+ model"),
+ "C13": ("model_checking",
+         "forked probes with real pipes / stream / datagram sockets, blocking and not, empty / partly filled / completely "
+         "full, bursts of deliveries (thorough: 70000), varying descriptor numbers: bytes read back, blocking caught by "
+         "an alarm watchdog, F_GETFD and descriptor-number reuse after unregister, rejected registrations; TLC validates "
+         "against TracePipe.tla and explores Pipe.tla with the wake method / O_NONBLOCK behaviour observed on the code",
+         "7.C13", "configuration probes of real code + TLC trace validation + TLA+ model with extracted parameters"),
+ "C14": ("model_checking",
+         "one forked probe per (13 entry points x signal numbers [quick: 18 representative, thorough: -2..130 and "
+         "extremes] x fresh/used process): outcome class, sigaction(NULL) of all 64 signals before/after, drop counter of "
+         "the captured state, Arc counts, descriptor validity, usability afterwards, wait status; TLC validates every "
+         "record against RejectOps.Expected",
+         "7.C14", "input-grid probes of real code + TLC trace validation against TLA+ function over the whole domain"),
+ "C15": ("model_checking",
+         "TLC explores Flag.tla for every arm/disarm/deliver history up to length 6 (thorough 8) in the four registration "
+         "orders; forked probes execute histories with exit statuses and termination signals, an atexit marker tells "
+         "_exit from exit; TLC validates status, marker and the flag values after every surviving delivery against "
+         "FlagOps.Run",
+         "7.C15", "TLA+ model of histories + history probes of real code + TLC trace validation"),
+ "C16": ("model_checking",
+         "paired forked probes per signal number (own non-orphaned process group, no core dumps): the kernel's default "
+         "action vs emulate_default_handler from normal context, with the signal masked, and from inside the signal's "
+         "own action; TLC validates against Kernel.tla's table (itself validated by the native probes) and model-checks "
+         "the emulation procedure of Default.tla with the DETAILS table observed on the code for all numbers x contexts",
+         "7.C16", "kernel-as-oracle probes + TLC trace validation + TLA+ model with extracted table"),
+ "C17": ("model_checking",
+         "Origin::extract fed synthetic siginfo records for the (signal x si_code) grid with poisoned pid/uid bytes, and "
+         "real deliveries by kill, raise, sigqueue, a child's kill, setitimer, POSIX timer, child exit / kill / stop "
+         "through SignalsInfo<WithOrigin> with independently recorded ground truth; TLC validates against OriginOps.tla",
+         "7.C17", "input-grid + mechanism probes of real code + TLC trace validation against TLA+ function"),
  "C18": ("model_checking",
          "TLC deadlock check and liveness (Termination, WriterProgress under weak fairness) on HalfLock.tla with the "
          "extracted constants; on real code every explored schedule must end with all threads done: deadlock "
